@@ -136,12 +136,7 @@ Definition all_set (st : state) : bool :=
   forallb (fun p => match snd p with Some _ => true | None => false end) st.
 
 Definition orig_consistent (k : cls_spec) (i : inst) : bool :=
-  if k_cache_hash k then
-    match read k i HASH_CACHE, hash_code k i with
-    | Ok c, Ok h => is_none c || val_eqb c h
-    | _, _ => false
-    end
-  else true.
+  if k_cache_hash k then cache_consistent k i else true.
 
 Definition expected_assoc_state (k : cls_spec) (i : inst) (changes : alist) : state :=
   map (fun a => (a_name a, match lookup (a_name a) changes with
